@@ -135,13 +135,18 @@ pub fn run(ctx: &mut Ctx) {
         let pool = build_pool(compressed);
         let ka = vec![size_byte(compressed, 4), 3, 0, 0];
         let ping = vec![size_byte(compressed, 4), 3, 7, 3];
-        let any: Vec<Vec<u8>> = pool.by_type.iter().map(|(_, f)| f.clone()).filter(|f| f.len() <= 64).collect();
+        let mut any: Vec<Vec<u8>> = pool.by_type.iter().map(|(_, f)| f.clone()).filter(|f| f.len() <= 64).collect();
+        // look-alikes of the keep-alive that must NOT make the connection write anything: TINY_NONE with a request id, other
+        // sub-types with request id 0
+        let tnz = vec![size_byte(compressed, 4), 3, 7, 0];
+        for f in [tnz.clone(), vec![size_byte(compressed, 4), 3, 255, 0], vec![size_byte(compressed, 4), 3, 0, 3]] { any.push(f.clone()); any.push(f); }
         // 1. short sessions, every drop index (single drops and every pair)
         let shorts: Vec<(Vec<Vec<u8>>, Vec<WEv>)> = vec![
             (vec![ping.clone(), ka.clone(), ping.clone()], vec![]),
             (vec![ka.clone(), ping.clone()], vec![WEv::Pending, WEv::Accept(2), WEv::Pending, WEv::Accept(2)]),
             (vec![ping.clone(), ka.clone(), ka.clone(), ping.clone()], vec![WEv::Accept(1), WEv::Pending, WEv::Accept(3), WEv::Pending, WEv::Pending, WEv::Accept(4)]),
             (vec![ping.clone(), ping.clone()], vec![]),
+            (vec![tnz.clone(), ping.clone(), tnz.clone()], vec![WEv::Pending, WEv::Accept(1), WEv::Pending, WEv::Accept(3), WEv::Pending, WEv::Pending, WEv::Accept(4)]),
         ];
         for (frames, ws) in &shorts {
             let stream = frames.concat();
